@@ -361,6 +361,8 @@ class BoolCast(Handler):
 
 def r6_scalar_literals(ctx):
     _literal_fields(ctx)
+    _raw_empty_table(ctx)
+    _value_pattern(ctx)
     fn = ctx.fn(NB, "BaseNode.cast_value")
     boolif = [n for n in ast.walk(fn) if isinstance(n, ast.If) and norm(n.test) == "self.keyword == 'bool'"]
     if len(boolif) != 1:
@@ -415,6 +417,72 @@ def _literal_fields(ctx):
     else:
         stores = [norm(st.value) for st in ast.walk(fn) if isinstance(st, ast.Assign) and any(isinstance(t, ast.Subscript) and norm(t.slice) == "'value_raw'" for t in st.targets)]
         ctx.form(bool(stores), NB, "BaseNode.__init__", what, detail=stores)
+
+
+def _raw_empty_table(ctx):
+    """raw_empty(): the raw value is missing when it is None, or the empty text on a node that is not a string; the
+    empty text on a string node is the literal \"\" that was written.  Decided as a truth table of the returned expression."""
+    from ..flowexpr import paths, truth
+    fn = ctx.fn(NB, "BaseNode.raw_empty")
+    rets = [e.resolved for q in paths(fn) for e in q.events if e.kind == "return" and e.resolved is not None]
+    what = "raw value missing = None, or '' on a non-string node ('' on a string node is a value)"
+    if len(rets) != 1:
+        ctx.form(False, NB, "BaseNode.raw_empty", what, detail=[norm(r) for r in rets][:2])
+        return
+    cells = {"None": dict(none=True, empty=False, isstr=False), "'' on str": dict(none=False, empty=True, isstr=True, kw=True),
+             "'' on int": dict(none=False, empty=True, isstr=True, kw=False), "'abc' on str": dict(none=False, empty=False, isstr=True, kw=True),
+             "'abc' on int": dict(none=False, empty=False, isstr=True, kw=False), "5 on int": dict(none=False, empty=False, isstr=False, kw=False)}
+    want = {"None": True, "'' on str": False, "'' on int": True, "'abc' on str": False, "'abc' on int": False, "5 on int": False}
+    bad, und = [], []
+    for name, c in cells.items():
+        def atom(e, _c=c):
+            k = norm(e)
+            t = {"self.value_raw is None": _c["none"], "self.value_raw is not None": not _c["none"], "isinstance(self.value_raw, str)": _c["isstr"],
+                 "self.value_raw == ''": _c["empty"], "self.value_raw != ''": not _c["empty"], "self.value_raw": not (_c["none"] or _c["empty"]),
+                 "len(self.value_raw) == 0": _c["empty"], "not self.value_raw": _c["none"] or _c["empty"]}
+            if "kw" in _c:
+                t.update({"self.keyword != 'str'": not _c["kw"], "self.keyword == 'str'": _c["kw"]})
+            return t.get(k)
+        v = truth(rets[0], atom)
+        if v is None:
+            und.append(name)
+        elif v != want[name]:
+            bad.append(f"{name}: {'missing' if v else 'a value'}")
+    if bad:
+        ctx.violated(NB, "BaseNode.raw_empty", what, detail=bad, expected={k: ("missing" if v else "a value") for k, v in want.items()})
+    else:
+        ctx.form(not und, NB, "BaseNode.raw_empty", what, detail={"undecided cells": und, "expression": norm(rets[0])[:120]})
+
+
+def _value_pattern(ctx):
+    """The pattern that reads a value takes a quoted text whole and a bare value up to the next blank or comment sign:
+    `x str = abc#note` and `x str = abc #note` both give abc (decided on the literal pattern over a frozen table)."""
+    import re as _re
+    from ..literal import Evaluator
+    rel = "src/scinumtools/dip/nodes/parser.py"
+    fn = ctx.fn(rel, "Parser.part_value")
+    mod = ctx.repo.module(rel)
+    lit = []
+    for c in ast.walk(fn):
+        if isinstance(c, ast.Call) and dotted_name(c.func) == "re.match" and c.args:
+            try:
+                v = Evaluator(ctx.repo, mod).ev(c.args[0])
+            except AnalysisError:
+                v = None
+            if isinstance(v, str) and '"""' in v:
+                lit.append(v)
+    if len(lit) != 1:
+        ctx.form(False, rel, "Parser.part_value", "the literal-value pattern is found", detail=len(lit))
+        return
+    rx = _re.compile(lit[0])
+    table = {"abc#note": "abc", "abc #note": "abc", "12.5e3#x": "12.5e3", "true # c": "true", '"a # b" # c': '"a # b"', "'x y'": "'x y'", "1e-3 cm": "1e-3"}
+    bad = []
+    for text, want in table.items():
+        m = rx.match(text)
+        got = m.group(1) if m else None
+        if got != want and not (text.startswith('"a # b"')):      # the greedy quote is an oddity of the original, not judged here
+            bad.append(f"{text!r} -> {got!r} (expected {want!r})")
+    ctx.check(not bad, rel, "Parser.part_value", "a bare value ends at a blank or at the comment sign", detail=bad or None, expected="[^# ]+ for bare values")
 
 
 def _prepend_order(ctx):
